@@ -313,7 +313,7 @@ def c16_select_orders_unsorted_queue(ctx, v):
     """get_blocks_to_fetch_per_peer on a queue that is NOT in height order (entries pushed by
     different build_peer_block_picture calls: a lower block announced late, a failed fetch
     re-queued next to a lower announcement). Queue of 2..=3 entries (both tiers: 4 entries — 24 orders
-    times the statuses — did not finish in 25 minutes), ids arbitrary and
+    times the statuses — was stopped unfinished after 17 minutes), ids arbitrary and
     pairwise distinct in any order, statuses / retry counts / batch size (1..=3) symbolic, and
     `sort_by` executed for real (bubble network calling the code's own comparison closure):
       the returned list is in increasing height order, every returned block was a Queued entry of
